@@ -280,6 +280,13 @@ var c05cells = []c05cell{
 	uploadCell("upload-file:into-uploads", []int{hlref.PrivUploadFile}, p1("Uploads")),
 	uploadCell("upload-file:into-dropbox", []int{hlref.PrivUploadFile}, p1("Drop Box")),
 	uploadCell("upload-file:into-nested-uploads", []int{hlref.PrivUploadFile}, p1("dir", "Uploads")),
+	// one path item that holds separators and "..": the folder the upload goes to is "other", whatever the item starts with
+	uploadCell("upload-file:item-uploads-dotdot-other", []int{hlref.PrivUploadFile, hlref.PrivUploadAnywhere}, p1("Uploads/../other")),
+	uploadCell("upload-file:items-dir-uploads-dotdot", []int{hlref.PrivUploadFile, hlref.PrivUploadAnywhere}, p1("dir", "Uploads/..")),
+	uploadFolderCell("upload-folder:item-uploads-dotdot-other", []int{hlref.PrivUploadFolder, hlref.PrivUploadAnywhere}, p1("Uploads/../other")),
+	// the drop box named with a trailing "." item: it is still the drop box
+	replyCell("list-files:dropbox-dot", []int{hlref.PrivViewDropBoxes}, hlref.TranGetFileNameList, hlref.FFileNameWithInfo, func(x *c05ctx) []hlref.Field { return []hlref.Field{fld(hlref.FFilePath, p1("Drop Box", "."))} }),
+	replyCell("list-files:dropbox-via-dotdot", []int{hlref.PrivViewDropBoxes}, hlref.TranGetFileNameList, hlref.FFileNameWithInfo, func(x *c05ctx) []hlref.Field { return []hlref.Field{fld(hlref.FFilePath, p1("Drop Box", "x", ".."))} }),
 	uploadCell("upload-file:under-uploads", []int{hlref.PrivUploadFile, hlref.PrivUploadAnywhere}, p1("Uploads", "sub")),
 	uploadCell("upload-file:elsewhere", []int{hlref.PrivUploadFile, hlref.PrivUploadAnywhere}, p1("other")),
 	uploadCell("upload-file:root", []int{hlref.PrivUploadFile, hlref.PrivUploadAnywhere}, nil),
